@@ -68,7 +68,7 @@ fn(A + ".protocol_send", params={"event": _ev.IO_EVENTS}, model_opts=VIEWS,
        # (trio's send_all waits by itself)
        ("C08.send.waits-for-transport", "implies(isinstance(event, RawData) and 'write' in net_ops() and not any(o.startswith('error:') for o in net_ops()), "
         "len(net_ops()) >= 2 and net_ops()[0] == 'write' and net_ops()[1] == 'drain')", "C08,C16"),
-   ], props=("C16", "C07"))
+   ], props=("C16", "C07", "C03", "C06", "C08", "C15"))
 
 fn(A + "._close", params={}, model_opts=VIEWS,
    ensures=[
@@ -109,9 +109,9 @@ fn(A + "._idle_timeout", params={}, model_opts=dict(VIEWS, clock=True),
    ensures=[
        # C07.timer: started at t0 the timer makes the server close at min(shutdown, t0 +
        # keep_alive_timeout): never later, and earlier only because shutdown has begun
-       ("C07.timer.closes", "call_index('TCPServer._initiate_server_close') >= 0", "C07,C15"),
-       ("C07.timer.not-late", "call_time('TCPServer._initiate_server_close') <= clock0() + self.config.keep_alive_timeout", "C07,C15"),
-       ("C07.timer.not-early", "call_time('TCPServer._initiate_server_close') == clock0() + self.config.keep_alive_timeout or self.context.terminated.flag", "C07"),
+       ("C07.timer.closes", "call_index('TCPServer._initiate_server_close') >= 0", "C07,C15,C16"),
+       ("C07.timer.not-late", "call_time('TCPServer._initiate_server_close') <= clock0() + self.config.keep_alive_timeout", "C07,C15,C16"),
+       ("C07.timer.not-early", "call_time('TCPServer._initiate_server_close') == clock0() + self.config.keep_alive_timeout or self.context.terminated.flag", "C07,C15,C16"),
    ],
    props=("C07", "C15"))
 
@@ -150,7 +150,7 @@ cls(T, fields=dict(COMMON_FIELDS, stream="obj trio:Stream", send_lock="obj trio:
 
 fn(T + ".protocol_send", params={"event": _ev.IO_EVENTS}, model_opts=VIEWS,
    requires=[("send.pre.running", "has(self, 'protocol') and has(self, '_task_group') and value_of(self, 'protocol').g_initiated and value_of(self, '_task_group')._nursery is not None")],
-   ensures=send_clauses("TrioSingleTask"), props=("C16", "C07"))
+   ensures=send_clauses("TrioSingleTask"), props=("C16", "C07", "C03", "C06", "C08", "C15"))
 
 fn(T + "._close", params={}, model_opts=VIEWS,
    ensures=[
@@ -186,9 +186,9 @@ fn(T + "._idle_timeout", params={}, model_opts=dict(VIEWS, clock=True),
              ("idle.pre.sticky", "self.context.terminated.g_sticky"),
              ("idle.pre.timeout", "self.config.keep_alive_timeout >= 0")],
    ensures=[
-       ("C07.timer.closes", "call_index('TCPServer._initiate_server_close') >= 0", "C07,C15"),
-       ("C07.timer.not-late", "call_time('TCPServer._initiate_server_close') <= clock0() + self.config.keep_alive_timeout", "C07,C15"),
-       ("C07.timer.not-early", "call_time('TCPServer._initiate_server_close') == clock0() + self.config.keep_alive_timeout or self.context.terminated.flag", "C07"),
+       ("C07.timer.closes", "call_index('TCPServer._initiate_server_close') >= 0", "C07,C15,C16"),
+       ("C07.timer.not-late", "call_time('TCPServer._initiate_server_close') <= clock0() + self.config.keep_alive_timeout", "C07,C15,C16"),
+       ("C07.timer.not-early", "call_time('TCPServer._initiate_server_close') == clock0() + self.config.keep_alive_timeout or self.context.terminated.flag", "C07,C15,C16"),
    ],
    props=("C07", "C15"))
 
